@@ -489,6 +489,51 @@ func (c *Ctx) compareTipIndexesRule() {
 		}
 		return true
 	})
+	if !lookup {
+		// the inclusion loop extracted into a helper given the two indexes: in the helper, a range over
+		// one parameter looks every key up in the other parameter
+		for _, call := range callsIn(fi.Decl.Body, true) {
+			g := calleeOf(info, call)
+			if g == nil || g.Pkg() != fi.Obj.Pkg() || len(call.Args) != 2 {
+				continue
+			}
+			a0, a1 := c.canon(info, call.Args[0], nil), c.canon(info, call.Args[1], nil)
+			w1, w2 := r.Name()+".tipIndex", p0.Name()+".tipIndex"
+			if !((a0 == w1 && a1 == w2) || (a0 == w2 && a1 == w1)) {
+				continue
+			}
+			gi := c.FuncOfObj(g)
+			if gi == nil || gi.Decl.Body == nil {
+				continue
+			}
+			ginfo := gi.Pkg.TypesInfo
+			q0, q1 := paramObj(ginfo, gi.Decl, 0), paramObj(ginfo, gi.Decl, 1)
+			ast.Inspect(gi.Decl.Body, func(n ast.Node) bool {
+				rs, ok := n.(*ast.RangeStmt)
+				if !ok || rs.Key == nil {
+					return true
+				}
+				ranged := identObj(ginfo, rs.X)
+				var other types.Object
+				switch ranged {
+				case q0:
+					other = q1
+				case q1:
+					other = q0
+				default:
+					return true
+				}
+				k := identObj(ginfo, rs.Key)
+				ast.Inspect(rs.Body, func(m ast.Node) bool {
+					if ix, ok := m.(*ast.IndexExpr); ok && identObj(ginfo, ix.X) == other && identObj(ginfo, ix.Index) == k {
+						lookup = true
+					}
+					return true
+				})
+				return true
+			})
+		}
+	}
 	c.Check(sizeCmp && lookup && nErr >= 2, "ERRFLOW", "tree.Tree.CompareTipIndexes/mismatch-branches", fi.Decl.Pos(), "sizes compared, every name looked up in the other index, constant error on each mismatch", fmt.Sprintf("taxon-set check incomplete (sizes compared: %v, names looked up: %v, error returns: %d)", sizeCmp, lookup, nErr)).Clause = "trees on different taxa are rejected with an error"
 }
 
